@@ -6,6 +6,7 @@ import Generated.C08
 import Proofs.LeftDeriv
 import Proofs.LeftQuirk
 import Proofs.LeftSubsume
+import Proofs.LeftReveal
 import Proofs.WellFormed
 /-! C08 — Chart-state scoring equals left-to-right scoring for every derivation.
 
@@ -210,6 +211,29 @@ theorem subsume_whole_minus_parts (a : Arpa) (wf : WellFormed a) (hp : ContextsO
   obtain ⟨L₂, G₂⟩ := derivation_frag a (build a) H R r₂ (ValidWords.append_right hv)
   obtain ⟨L, G⟩ := derivation_frag a (build a) H R r (by rw [hy]; exact hv)
   obtain ⟨L', G'⟩ := subsume_frag_aux H R G₁ G₂
+  rw [hy] at G
+  have := (frag_unique R (xlSound_build a) G G').2
+  rw [this]; grind
+
+/-- **RevealAfter, incrementally**: revealing the pointers of a following fragment `A` to a fragment `M` one call at a
+time (`after.length = k+1`, `seen = k`) and finally its `full` flag — the protocol of `lm/partial_test.cc` — leaves, as
+`M`'s left state, the canonical left state of `M ++ A`, and the accumulated adjustments make up its canonical score. -/
+theorem reveal_after (a : Arpa) (T : Table) (H : Hyp a T) (R : Ptr → Rat) (M : List Word) (Lm : Nat) (cM : Chart) (pM : Rat)
+    (GM : FragC a T R M Lm cM pM) (A : List Word) (La : Nat) (cA : Chart) (pA : Rat) (GA : FragC a T R A La cA pA) :
+    ∃ L' right', FragC a T R (M ++ A) L' { left := (revealAfterAll T R cM cA).1, right := right' }
+      (pM + pA + (revealAfterAll T R cM cA).2.2) := revealAfterAll_frag H R GM GA
+
+/-- … so that **the accumulated adjustment is exactly whole − parts**, for all derivations of the parts and the whole -/
+theorem reveal_after_whole_minus_parts (a : Arpa) (wf : WellFormed a) (hp : ContextsOnlyBackoff a) (R : Ptr → Rat) (r₁ r₂ r : Rule)
+    (hy : r.yield = r₁.yield ++ r₂.yield) (hv : ValidWords a r.yield) :
+    (revealAfterAll (build a) R (ruleScore (build a) R none r₁).1 (ruleScore (build a) R none r₂).1).2.2 =
+      (ruleScore (build a) R none r).2 - (ruleScore (build a) R none r₁).2 - (ruleScore (build a) R none r₂).2 := by
+  have H := hyp_build a wf hp
+  rw [hy] at hv
+  obtain ⟨L₁, G₁⟩ := derivation_frag a (build a) H R r₁ (ValidWords.append_left hv)
+  obtain ⟨L₂, G₂⟩ := derivation_frag a (build a) H R r₂ (ValidWords.append_right hv)
+  obtain ⟨L, G⟩ := derivation_frag a (build a) H R r (by rw [hy]; exact hv)
+  obtain ⟨L', right', G'⟩ := revealAfterAll_frag H R G₁ G₂
   rw [hy] at G
   have := (frag_unique R (xlSound_build a) G G').2
   rw [this]; grind
